@@ -393,9 +393,9 @@ func pickFeat(r *rand.Rand) string {
 func tooManyLocals(b []byte) bool { return WalkModule(b).MaxLocal > 1<<22 }
 
 func fuzz(r *rand.Rand, par, n int, only string) {
-	total := 2600
+	total := 6000
 	if hx.Thorough() {
-		total = 45000
+		total = 250000
 	}
 	if n > 0 {
 		total = n
